@@ -168,6 +168,95 @@ func VH_C12_Forms() {
 	symAssert(out == "["+av[0]+"|"+av[1]+"|"+av[2]+"]", "same-output-through-every-form")
 }
 
+// value positions for a macro call: %E is the call expression, %O the expected rendering of the macro
+var vhC12Uses = []struct{ tpl, want string }{
+	{"{{ 'x' ~ %E ~ 'y' }}", "x%Oy"},
+	{"{{ %E|default('zz') }}", "%O"},
+	{"{{ [%E, 'k']|join('-') }}", "%O-k"},
+	{"{% set s = %E %}{{ s }}{{ s }}", "%O%O"},
+	{"{{ %E ~ %E }}", "%O%O"},
+	{"{% if %E == %E %}eq{% else %}ne{% endif %}", "eq"},
+	{"{{ (%E)|raw }}", "%O"},
+	{"{% for c in [%E] %}{{ loop.index }}{{ c }}{% endfor %}", "1%O"},
+	{"{{ {'k': %E}['k'] }}", "%O"},
+	{"{{ %E is same_as(%E) ? 'same' : 'other' }}", "same"},
+}
+
+// VH_C12_Value: the value of a macro call is what the macro renders, wherever the call is written:
+// concatenated, filtered, assigned, compared, collected, through every call form.
+func VH_C12_Value() {
+	f := symChoice(len(vhC12Forms))
+	u := symChoice(len(vhC12Uses))
+	na := 1 + symChoice(2)
+	args := ""
+	ctx := map[string]interface{}{}
+	av := []string{"", "D", ""}
+	for j := 0; j < na; j++ {
+		if j > 0 {
+			args += ", "
+		}
+		args += "a" + strconv.Itoa(j+1)
+		v := symStringIn(1, vhValAlphabet)
+		ctx["a"+strconv.Itoa(j+1)] = v
+		av[j] = v
+	}
+	form := vhC12Forms[f]
+	pre := form.pre
+	if pre == "LIB" {
+		pre = vhC12Lib
+	}
+	call := vhReplace(form.call, "%A", args)
+	call = call[3 : len(call)-3] // without the print delimiters
+	symTag("call:" + call + " use:" + vhC12Uses[u].tpl)
+	e := New()
+	e.RegisterString("lib", vhC12Lib)
+	if err := e.RegisterString("main", pre+vhReplace(vhC12Uses[u].tpl, "%E", call)); err != nil {
+		symAssert(false, "template-parses")
+		return
+	}
+	out, err := e.Render("main", ctx)
+	symCover("rendered")
+	symAssert(err == nil, "renders")
+	symAssert(out == vhReplace(vhC12Uses[u].want, "%O", "["+av[0]+"|"+av[1]+"|"+av[2]+"]"), "call-value-is-the-rendered-body")
+}
+
+// literal arguments as written in a template and the value they denote
+var vhC12Lits = []struct{ src, val string }{
+	{`'plain'`, "plain"}, {`'it\'s'`, "it's"}, {`"q\"r"`, "q\"r"}, {`'a\\b'`, "a\\b"}, {`'n\nz'`, "n\nz"}, {`"t\tz"`, "t\tz"},
+	{`12`, "12"}, {`1.5`, "1.5"}, {`'x' ~ 'y'`, "xy"}, {`('p')`, "p"}, {`''`, ""}, {`'a,b'`, "a,b"}, {`'a)b'`, "a)b"}, {`"#{1}"`, "#{1}"},
+}
+
+// VH_C12_Literals: literal arguments (quoted strings with escapes, numbers, small expressions) denote
+// the same value through every call form, in first and in second position.
+func VH_C12_Literals() {
+	f := symChoice(len(vhC12Forms))
+	l1 := symChoice(len(vhC12Lits))
+	l2 := symChoice(len(vhC12Lits))
+	second := symBool()
+	args, want := vhC12Lits[l1].src, "["+vhC12Lits[l1].val+"|D|]"
+	if second {
+		args, want = vhC12Lits[l1].src+", "+vhC12Lits[l2].src, "["+vhC12Lits[l1].val+"|"+vhC12Lits[l2].val+"|]"
+	} else {
+		symAssume(l2 == 0)
+	}
+	form := vhC12Forms[f]
+	pre := form.pre
+	if pre == "LIB" {
+		pre = vhC12Lib
+	}
+	symTag("call:" + vhReplace(form.call, "%A", args))
+	e := New()
+	e.RegisterString("lib", vhC12Lib)
+	if err := e.RegisterString("main", pre+vhReplace(form.call, "%A", args)); err != nil {
+		symAssert(false, "template-parses")
+		return
+	}
+	out, err := e.Render("main", nil)
+	symCover("rendered")
+	symAssert(err == nil, "renders")
+	symAssert(out == want, "literal-argument-same-through-every-form")
+}
+
 // VH_C12_Nested: macros calling macros, from an included template and from another library.
 func VH_C12_Nested() {
 	v := symStringIn(1, vhValAlphabet)
